@@ -43,13 +43,27 @@ fn('dsplib::(anon)::_welch', SP, sig='(const dsplib::arr_cmplx &, const dsplib::
 for T, key in (('dsplib::arr_real', 'real'), ('dsplib::arr_cmplx', 'cmplx')):
     fn('dsplib::welch', SP, sig='(const %s &, const dsplib::arr_real &, dsplib::SpectrumType)' % T, key='welch<%s>(x,win,type)' % key,
        serves=['C13', 'C05'], pure=True, extra_env=ENV, may_throw=True,
-       requires=[('window', 'And(win.len >= 1, win.len <= 1048576)')],
+       requires=[('window', 'And(win.len >= %d, win.len <= 1048576)' % (2 if key == 'real' else 3)),
+                 ('signal', 'And(x.len >= win.len, x.len <= 1073741824)'),
+                 ('window_power', 'And(DOT(data(win), 0, 1, data(win), win.len) > 0, SUMR(data(win), win.len) != 0)')],
        ghost={'NOV': '-1', 'NF': '-1'}, ghost_on=[('call:welch', None, {'NOV': 'arg2', 'NF': 'arg3'})],
        ensures=[('half_window_overlap', 'NOV == tdiv(win.len, 2)'),
                 ('nfft_is_next_power_of_two', 'And(NF >= win.len, Or(win.len == 1, NF < 2 * win.len), exists(lambda k: And(0 <= k, k <= 30, NF == pow2(k))))')])
+    # the five-argument overload hands its arguments to _welch unchanged and returns its result (lengths and labels restated)
+    RQ = [('sizes', 'And(win.len >= 1, win.len <= 1048576, x.len >= win.len, x.len <= 1073741824, noverlap >= 0)'),
+          ('window_power', 'And(DOT(data(win), 0, 1, data(win), win.len) > 0, SUMR(data(win), win.len) != 0)'),
+          ('nfft', 'And(nfft >= %d, nfft <= 1048576, tmod(nfft, 2) == 0)' % (2 if key == 'real' else 4))]
     fn('dsplib::welch', SP, sig='(const %s &, const dsplib::arr_real &, int, int, dsplib::SpectrumType)' % T,
-       key='welch<%s>(x,win,noverlap,nfft,type)' % key, serves=['C13'], trusted=True, pure=True,
-       notes='forwarding overload: assumed to return _welch(x, win, noverlap, nfft, type)')
+       key='welch<%s>(x,win,noverlap,nfft,type)' % key, serves=['C13', 'C05'], pure=True, extra_env=ENV, may_throw=True,
+       requires=RQ + ([('ghost', 'And(0 <= k0, k0 < nfft)')] if key == 'cmplx' else []),
+       lets=dict({'h': 'tdiv(nfft, 2)'}, **({'k0': 'ghost_int("entry")'} if key == 'cmplx' else {})),
+       ghost={'NOV': '-1', 'NF': '-1', 'TY': '-1', 'WL': '-1', 'XL': '-1'},
+       ghost_on=[('call:_welch', None, {'NOV': 'arg2', 'NF': 'arg3', 'TY': 'arg4', 'WL': 'arg1.len', 'XL': 'arg0.len'})],
+       ensures=[('forwards_unchanged', 'And(NOV == noverlap, NF == nfft, TY == type, WL == win.len, XL == x.len)')] + (
+           [('lengths', 'And(result.pxx.len == h + 1, result.f.len == h + 1)'),
+            ('labels', 'forall(lambda k: Implies(And(0 <= k, k <= h), result.f[k] * ToReal(nfft) == ToReal(k)))')] if key == 'real' else
+           [('lengths', 'And(result.pxx.len == nfft, result.f.len == nfft)'),
+            ('labels', 'result.f[k0] * ToReal(nfft) == ToReal(k0 - h + 1)')]))
 
 # magnitude-squared coherence: |Pxy|^2 / (Pxx * Pyy) of the accumulated (cross-)spectra, nfft/2+1 bins
 MS = 'lib/mscohere.cpp'
